@@ -178,8 +178,24 @@ fn run_case(rep: &mut Report, journal: &mut Journal, case_seed: u64, nsteps: usi
                 let fi = gleam_files[r.below(gleam_files.len())];
                 let (t, kd) = edit_text(&mut r, &ws.files[fi].text);
                 kind = kd;
-                ws.files[fi].text = t.clone();
-                change.change_file(FileId(ws.files[fi].id), Arc::from(t.as_str()));
+                if r.chance(1, 4) {
+                    // one Change carrying successive texts of one file (what a didChange with
+                    // several content changes, or a didOpen racing the loader, produces): the
+                    // LAST text is the file's content
+                    let (t2, _) = edit_text(&mut r, &t);
+                    change.change_file(FileId(ws.files[fi].id), Arc::from(t.as_str()));
+                    if r.chance(1, 3) {
+                        if let Some(&other) = gleam_files.iter().find(|&&g| g != fi) {
+                            change.change_file(FileId(ws.files[other].id), Arc::from(ws.files[other].text.as_str()));
+                        }
+                    }
+                    change.change_file(FileId(ws.files[fi].id), Arc::from(t2.as_str()));
+                    ws.files[fi].text = t2;
+                    kind = "several-texts-of-one-file-in-one-change";
+                } else {
+                    ws.files[fi].text = t.clone();
+                    change.change_file(FileId(ws.files[fi].id), Arc::from(t.as_str()));
+                }
             } else if k < 9 {
                 // add a file (roots re-set); its module name may or may not be imported already
                 let pi = r.below(ws.pkgs.len());
